@@ -74,14 +74,16 @@ int main(int argc, char** argv) {
         std::string o = "["; for (std::size_t q = 0; q < nv.size(); q++) { if (q) o += ","; o += "[" + std::to_string(c.ofver(nv[q].second)) + "," + std::to_string(nv[q].first.get_vinsert_delete()) + "," + std::to_string(nv[q].first.get_vsplit()) + "]"; } return o + "]"; };
     auto EPS = [&]() { return (scan_endpoint)(rng() % 3); };
     auto do_put = [&](const std::string& k, bool uniq, bool probe, long opno) {
-        int vid = ++vctr; int buf[2] = {vid, 0};
+        int vid = ++vctr; int buf[64] = {vid, 0};
+        // values of different lengths and alignments (mem_usage must account for the allocated size = length + max(alignment, 8))
+        std::size_t vlen = 8, valign = 8; if (argi("valmix", 0)) { vlen = 8 + rng() % 200; static const std::size_t AS[] = {1, 8, 16, 32, 64, 128}; valign = AS[rng() % 6]; }
         // snapshot versions of all borders before the call
         vh::Canon pre(ti); std::map<base_node*, node_version64_body> before;
         for (auto* n : pre.ord) if (n->get_version_border()) before[n] = n->get_version();
         inserted_node_info info{nullptr, nullptr}; node_version64* legacy_nvp = nullptr; char* created = nullptr; bool use_legacy = (long)(rng() % 100) < legacy;
         status rc;
-        if (use_legacy) rc = put<char>(tok, st, k, (char*)buf, 8, &created, (value_align_type)8, uniq, &legacy_nvp);
-        else rc = put<char>(tok, st, k, (char*)buf, 8, &created, (value_align_type)8, uniq, &info);
+        if (use_legacy) rc = put<char>(tok, st, k, (char*)buf, vlen, &created, (value_align_type)valign, uniq, &legacy_nvp);
+        else rc = put<char>(tok, st, k, (char*)buf, vlen, &created, (value_align_type)valign, uniq, &info);
         vh::Canon post(ti);
         std::string changed = "[", newb = "["; bool f1 = true, f2 = true;
         for (auto* n : post.ord) if (n->get_version_border()) {
@@ -95,6 +97,7 @@ int main(int argc, char** argv) {
         std::string o = "{\"op\":\"put\",\"k\":" + vh::jbytes(k) + ",\"v\":" + std::to_string(vid) + ",\"uniq\":" + vh::jb(uniq) + ",\"st\":\"" + vh::stname(rc) + "\"";
         o += std::string(",\"legacy\":") + vh::jb(use_legacy) + ",\"rep\":[" + std::to_string(post.ofver(mod)) + "," + std::to_string(post.ofver(cre)) + "],\"modex\":" + vh::jb(modex) + ",\"crex\":" + vh::jb(crex) + ",\"changed\":" + changed + ",\"newb\":" + newb;
         o += std::string(",\"cpok\":") + vh::jb(rc != status::OK || (created != nullptr && *(int*)created == vid));
+        o += ",\"vsz\":" + std::to_string(vlen + (valign < 8 ? 8 : valign));
         if (probe) {
             o += ",\"probe\":["; for (std::size_t q = 0; q < last_nv.size(); q++) { if (q) o += ","; o += vh::jb(!(last_nv[q].second->get_stable_version() == last_nv[q].first)); } o += "]";
         }
@@ -168,6 +171,31 @@ int main(int argc, char** argv) {
             long n = 0; std::string lastkey; bool gotany = false, ended = false;
             // cursor paused by the caller, a write into the tree (often into the node under the cursor), cursor resumed
             long modafter = ((long)(rng() % 100) < argi("pmod", 0) && rc == status::OK) ? 1 + (long)(rng() % 3) : -1;
+            if (modafter > 0 && rng() % 3 == 0) {
+                // prefix scan over one next layer, paused inside it, then every key of that layer is removed, then resumed
+                std::vector<std::string> longk; for (auto& kv : present) if (kv.second && kv.first.size() > 8) longk.push_back(kv.first);
+                if (!longk.empty()) {
+                    if (ctx) iscan_close(ctx); ctx = nullptr; nv.clear();
+                    std::string P = longk[rng() % longk.size()].substr(0, 8); std::string hi = P; int q = 7; while (q >= 0 && (unsigned char)hi[q] == 255) q--;
+                    if (q >= 0) { hi[q] = (char)((unsigned char)hi[q] + 1); hi.resize(q + 1); }
+                    lk = P; le = scan_endpoint::INCLUSIVE; rk = q >= 0 ? hi : std::string(); re = q >= 0 ? scan_endpoint::EXCLUSIVE : scan_endpoint::INF; ea = false;
+                    rc = iscan_open(st, lk, le, rk, re, rtl, ea, ctx, val, cb);
+                    std::string o2 = "{\"op\":\"iscanmod\",\"l\":" + vh::jbytes(lk) + ",\"le\":\"" + vh::epname(le) + "\",\"r\":" + vh::jbytes(rk) + ",\"re\":\"" + vh::epname(re) + "\",\"rtl\":" + vh::jb(rtl) + ",\"ea\":false,\"st\":\"" + vh::stname(rc) + "\",\"steps1\":[";
+                    long got = 0; std::string last;
+                    while (rc == status::OK) { last = ctx->full_key(); if (got) o2 += ","; o2 += "[" + vh::jbytes(last) + "," + (val ? std::to_string(*(int*)val) : std::string("-1")) + "]"; got++; if (got >= modafter) break; rc = iscan_next(ctx, val, cb); }
+                    o2 += "],\"st1\":\"" + std::string(vh::stname(rc)) + "\",\"mids\":[";
+                    if (rc == status::OK && last.size() > 8) {
+                        std::string LP = last.substr(0, (last.size() - 1) / 8 * 8); bool f = true;     // prefix of the deepest layer the cursor is in
+                        for (auto& kv : present) if (kv.second && kv.first.size() > LP.size() && kv.first.compare(0, LP.size(), LP) == 0) { status mrc = remove(tok, st, kv.first); if (mrc == status::OK) kv.second = false;
+                            if (!f) o2 += ","; f = false; o2 += "{\"op\":\"rem\",\"k\":" + vh::jbytes(kv.first) + ",\"v\":0,\"st\":\"" + vh::stname(mrc) + "\"}"; }
+                        o2 += "],\"steps2\":["; long n2 = 0; rc = iscan_next(ctx, val, cb);
+                        while (rc == status::OK) { std::string fk = ctx->full_key(); if (n2) o2 += ","; o2 += "[" + vh::jbytes(fk) + "," + (val ? std::to_string(*(int*)val) : std::string("-1")) + "]"; n2++; if (n2 > 400) break; rc = iscan_next(ctx, val, cb); }
+                        o2 += "],\"end\":\"" + std::string(vh::stname(rc)) + "\"";
+                        { vh::Canon c2(ti); o2 += ",\"dump\":" + vh::dump_json(c2, valjson); }
+                    } else o2 += "],\"steps2\":[],\"end\":\"" + std::string(vh::stname(rc)) + "\"";
+                    o2 += "}"; puts(o2.c_str()); if (ctx) iscan_close(ctx); have_read = false; continue;
+                }
+            }
             if (modafter > 0) {
                 std::string o2 = "{\"op\":\"iscanmod\",\"l\":" + vh::jbytes(lk) + ",\"le\":\"" + vh::epname(le) + "\",\"r\":" + vh::jbytes(rk) + ",\"re\":\"" + vh::epname(re) + "\",\"rtl\":" + vh::jb(rtl) + ",\"ea\":" + vh::jb(ea) + ",\"st\":\"" + vh::stname(rc) + "\",\"steps1\":[";
                 long got = 0; std::string last;
@@ -181,12 +209,12 @@ int main(int argc, char** argv) {
                     if (!isput && mk.empty()) { std::vector<std::string> pk; for (auto& kv : present) if (kv.second) pk.push_back(kv.first); auto it = std::find(pk.begin(), pk.end(), last); long ix = it == pk.end() ? 0 : (long)(it - pk.begin()); long d = (long)(rng() % 3) - 1; ix = std::max(0L, std::min((long)pk.size() - 1, ix + d)); mk = pk.empty() ? last : pk[ix]; }
                     if (isput) { vid = ++vctr; int buf[2] = {vid, 0}; mrc = put<char>(tok, st, mk, (char*)buf, 8); if (mrc == status::OK) present[mk] = true; if (std::find(keys.begin(), keys.end(), mk) == keys.end()) keys.push_back(mk); }
                     else { mrc = remove(tok, st, mk); if (mrc == status::OK) present[mk] = false; }
-                    o2 += std::string(",\"mid\":{\"op\":\"") + (isput ? "put" : "rem") + "\",\"k\":" + vh::jbytes(mk) + ",\"v\":" + std::to_string(vid) + ",\"st\":\"" + vh::stname(mrc) + "\"},\"steps2\":[";
+                    o2 += std::string(",\"mids\":[{\"op\":\"") + (isput ? "put" : "rem") + "\",\"k\":" + vh::jbytes(mk) + ",\"v\":" + std::to_string(vid) + ",\"st\":\"" + vh::stname(mrc) + "\"}],\"steps2\":[";
                     long n2 = 0; rc = iscan_next(ctx, val, cb);
                     while (rc == status::OK) { std::string fk = ctx->full_key(); if (n2) o2 += ","; o2 += "[" + vh::jbytes(fk) + "," + (val ? std::to_string(*(int*)val) : std::string("-1")) + "]"; n2++; if (n2 > 400) break; rc = iscan_next(ctx, val, cb); }
                     o2 += "],\"end\":\"" + std::string(vh::stname(rc)) + "\"";
                     { vh::Canon c2(ti); o2 += ",\"dump\":" + vh::dump_json(c2, valjson); }
-                } else o2 += ",\"mid\":{\"op\":\"none\",\"k\":[],\"v\":0,\"st\":\"\"},\"steps2\":[],\"end\":\"" + std::string(vh::stname(rc)) + "\"";
+                } else o2 += ",\"mids\":[],\"steps2\":[],\"end\":\"" + std::string(vh::stname(rc)) + "\"";
                 o2 += "}"; puts(o2.c_str()); if (ctx) iscan_close(ctx); have_read = false; continue;
             }
             while (rc == status::OK) {
